@@ -170,6 +170,27 @@ theorem C06_declined {n n' : Node} {h : Hash} {inv : Invoice} {now : Nat}
       | false => simp only [hvi] at hd; cases hd; exact ⟨rfl, rfl, rfl, rfl, rfl⟩
       | true => simp only [hvi] at hd; cases hd
 
+/-- **C06 (an issued invoice backs nothing).**  An invoice the node merely ISSUED (receiving side) neither
+    approves its hash nor makes it "seen": issuing changes neither `invoices` nor `payments`, and a restart gives a
+    hash a payment entry only if it has a persisted APPROVED invoice, a persisted preimage, or HTLCs in a current
+    commitment — whatever is in the persisted issued invoices.  Together with `C06_unbacked`: an outgoing HTLC
+    for the hash of an issued invoice is refused unless covered, before and after a restart. -/
+theorem C06_issued_backs_nothing (n : Node) (h : Hash) (inv : Invoice) :
+    ((n.issue h inv).1.invoices = n.invoices ∧ (n.issue h inv).1.payments = n.payments) ∧
+    (n.disk.invoices h = none → n.disk.pre h = false →
+      (∀ c, c < n.nch → h ∉ keys (n.chans c).hcur (n.chans c).ccur (n.chans c).hcur (n.chans c).ccur) →
+      n.restart.invoices h = none ∧ n.restart.payments h = none) := by
+  constructor
+  · unfold Node.issue
+    cases n.issued h with
+    | some old => exact ⟨rfl, rfl⟩
+    | none => simp only; split <;> exact ⟨rfl, rfl⟩
+  · intro h1 h2 h3
+    refine ⟨h1, ?_⟩
+    show restoreAll n.chans n.nch _ h = none
+    apply restoreAll_none _ _ _ _ _ h3
+    simp [h1, h2]
+
 /-- **C06 (restart).**  A restart (persisted invoices and preimages, payments rebuilt by
     `restore_payments` from the current commitments of every channel) keeps the invariant, leaves the
     ghost ledger and the approvals unchanged, and leaves the node's per-channel amounts exactly equal to
@@ -242,6 +263,18 @@ example :
     r2.2 = .declined ∧
     (r2.1.cpSign 0 false (Info.ofCp [] [⟨1, 100000, 500⟩])).2 = .err ∧
     (r2.1.approve 1 ⟨100000000, 1600000060, [0, 1]⟩ 1600000000).2 = .declined := by
+  decide +kernel
+
+/-- `C06_issued_backs_nothing` is not vacuous: issue an invoice for hash 2, persist the node state through an
+    approval of hash 0, restart: the outgoing HTLC for hash 2 is refused before and after -/
+example :
+    let n0 := Node.init 2 pol0
+    let n1 := (n0.issue 2 ⟨50000000, 1600090000, [1, 2]⟩).1
+    let n2 := (n1.approve 0 ⟨1000, 1600000060, [0, 0]⟩ 1600000000).1
+    let n3 := n2.restart
+    (n1.cpSign 0 false (Info.ofCp [] [⟨2, 10000, 500⟩])).2 = .err ∧
+    (n3.issued 2).isSome = true ∧ (n3.payments 2).isNone = true ∧
+    (n3.cpSign 0 false (Info.ofCp [] [⟨2, 10000, 500⟩])).2 = .err := by
   decide +kernel
 
 end VlsModel.Props.C06
